@@ -128,6 +128,97 @@ theorem iterRem_spec (p : Nat → Bool) (as : List Nat) (s : Store) (a : Nat)
     (iterRem p (as.length + 1) s a).1 = as.map s.key :=
   iterRem_spec_fuel p as s a (as.length + 1) hn hp hnd h0 hk hm hb (Nat.lt_succ_self _)
 
+/-- the visit list AND the store the iteration leaves behind: the store is the original one with the visited keys
+    satisfying `p` discarded, in visiting order -/
+theorem iterRem_both_fuel (p : Nat → Bool) : ∀ (as : List Nat) (s : Store) (a : Nat) (f : Nat),
+    NextChain s a as → PrevChain s as → as.Nodup → 0 ∉ as → (as.map s.key).Nodup → MapOk s as →
+    (∀ b bs, as = b :: bs → s.prev b ∉ bs) → as.length < f →
+    (iterRem p f s a).1 = as.map s.key ∧
+    (iterRem p f s a).2 = ((as.map s.key).filter p).foldl (fun st k => discard k st) s
+  | [], s, a, f, hn, _, _, _, _, _, _, hf => by
+    simp only [NextChain] at hn
+    obtain ⟨f', rfl⟩ : ∃ f', f = f' + 1 := ⟨f - 1, by simp at hf; omega⟩
+    simp [iterRem, hn]
+  | b :: bs, s, a, f, hn, hp, hnd, h0, hkn, hmap, hpb, hf => by
+    obtain ⟨f', rfl⟩ : ∃ f', f = f' + 1 := ⟨f - 1, by simp at hf; omega⟩
+    have hf' : bs.length < f' := by simp at hf; omega
+    obtain ⟨rfl, hn'⟩ := hn
+    have hb0 : a ≠ 0 := by intro h; apply h0; simp [h]
+    have hnd' : bs.Nodup := (List.nodup_cons.mp hnd).2
+    have hab : a ∉ bs := (List.nodup_cons.mp hnd).1
+    have h0' : 0 ∉ bs := fun h => h0 (by simp [h])
+    have hpa : s.prev a ∉ bs := hpb a bs rfl
+    have hkn' : (bs.map s.key).Nodup := by
+      simp only [List.map_cons, List.nodup_cons] at hkn; exact hkn.2
+    have hka : ∀ z ∈ bs, s.key z ≠ s.key a := by
+      intro z hz h
+      simp only [List.map_cons, List.nodup_cons, List.mem_map, not_exists, not_and] at hkn
+      exact hkn.1 z hz h
+    simp only [iterRem, hb0, ↓reduceIte, List.map_cons, List.cons.injEq, true_and]
+    by_cases hk : p (s.key a) = true
+    · -- the consumer discards the element being visited
+      simp only [hk, ↓reduceIte]
+      have hma : s.map (s.key a) = some a := hmap a (by simp)
+      have hdis : discard (s.key a) s = { unlink s a with map := upd s.map (s.key a) none } := by
+        unfold discard; rw [hma]
+      have hnext : ∀ z ∈ bs, (discard (s.key a) s).next z = s.next z := by
+        intro z hz
+        have : z ≠ s.prev a := fun h => hpa (h ▸ hz)
+        rw [hdis]; simp [unlink, this]
+      have hnx : (discard (s.key a) s).next a = s.next a := by
+        rw [hdis]; simp only [unlink]; split <;> rfl
+      have hkey : (discard (s.key a) s).key = s.key := discard_key s _
+      rw [hnx]
+      have ih := iterRem_both_fuel p bs (discard (s.key a) s) (s.next a) f'
+        (nextChain_congr bs _ hnext hn')
+        (by
+          match bs, hp, hnd', hn' with
+          | [], _, _, _ => trivial
+          | [c], _, _, _ => trivial
+          | c :: d :: ds, hp, hnd', hn' =>
+            have hp' : PrevChain s (c :: d :: ds) := hp.2
+            apply prevChain_congr (c :: d :: ds) _ hp'
+            intro z hz
+            have hc : s.next a = c := hn'.1
+            have : z ≠ c := by
+              intro h; subst h
+              exact (List.nodup_cons.mp hnd').1 hz
+            rw [hdis]; simp [unlink, hc, this])
+        hnd' h0' (by rw [hkey]; exact hkn')
+        (by
+          intro z hz
+          rw [hkey, hdis]
+          simp only [upd, hka z hz, ↓reduceIte]
+          exact hmap z (by simp [hz]))
+        (by
+          intro c cs hbs
+          subst hbs
+          have hc : s.next a = c := hn'.1
+          have : (discard (s.key a) s).prev c = s.prev a := by rw [hdis]; simp [unlink, hc]
+          rw [this]
+          exact fun h => hpa (by simp [h]))
+        hf'
+      rw [hkey] at ih
+      simp only [List.filter_cons, hk, ↓reduceIte, List.foldl_cons]
+      exact ih
+    · simp only [hk, Bool.false_eq_true, ↓reduceIte]
+      have ih := iterRem_both_fuel p bs s (s.next a) f' hn'
+        (by
+          match bs, hp with
+          | [], _ => trivial
+          | c :: cs, hp => exact hp.2)
+        hnd' h0' hkn' (fun z hz => hmap z (by simp [hz]))
+        (by
+          intro c cs hbs
+          subst hbs
+          have : s.prev c = a := hp.1
+          rw [this]
+          exact fun h => hab (by simp [h]))
+        hf'
+      simp only [List.filter_cons, hk, Bool.false_eq_true, ↓reduceIte]
+      exact ih
+
+
 /-! ### representation invariant: the pointer structure denotes a list (theorem `ptr_refines`) -/
 
 /-- consecutive cells of the ring are linked in both directions -/
@@ -538,6 +629,102 @@ theorem reprA_discard {s : Store} {as L : List Nat} (h : ReprA s as L) (k : Nat)
         intro hm'
         exact hk' ((List.mem_erase_of_ne e).mpr hm')
 
+theorem repr_discard {s : Store} {L : List Nat} (h : Repr s L) (k : Nat) : Repr (discard k s) (L.erase k) := by
+  obtain ⟨as, ha⟩ := h
+  by_cases hk : k ∈ L
+  · obtain ⟨as1, a, as2, _, _, h'⟩ := (reprA_discard ha k).2 hk
+    exact ⟨_, h'⟩
+  · rw [(reprA_discard ha k).1 hk, List.erase_of_not_mem hk]; exact ⟨as, ha⟩
+
+theorem repr_foldl_discard : ∀ (ks : List Nat) (s : Store) (L : List Nat), Repr s L →
+    Repr (ks.foldl (fun st k => discard k st) s) (ks.foldl (fun l k => l.erase k) L)
+  | [], _, _, h => h
+  | k :: ks, s, L, h => repr_foldl_discard ks _ _ (repr_discard h k)
+
+theorem foldl_erase_filter : ∀ (ks L : List Nat), L.Nodup →
+    ks.foldl (fun l k => l.erase k) L = L.filter (fun x => !(decide (x ∈ ks)))
+  | [], L, _ => by
+    simp only [List.foldl_nil, List.not_mem_nil, decide_false, Bool.not_false]
+    exact (List.filter_eq_self.mpr (fun _ _ => rfl)).symm
+  | k :: ks, L, h => by
+    have hnd : (L.filter (fun x => x != k)).Nodup := List.Sublist.nodup List.filter_sublist h
+    simp only [List.foldl_cons]
+    rw [h.erase_eq_filter k, foldl_erase_filter ks _ hnd, List.filter_filter]
+    apply List.filter_congr
+    intro x _
+    by_cases hx : x = k <;> simp [hx]
+
+/-- C17 audit #1: under `Repr`, iteration with removal of the visited elements visits exactly `L` AND leaves a store that
+    again satisfies `Repr`, denoting `L` without the removed elements -/
+theorem reprA_iterRem (p : Nat → Bool) {s : Store} {as L : List Nat} (h : ReprA s as L) :
+    (iterRem p s.fresh s (s.next 0)).1 = L ∧
+    Repr (iterRem p s.fresh s (s.next 0)).2 (L.filter (fun k => !p k)) := by
+  have hboth := iterRem_both_fuel p as s (s.next 0) s.fresh (nextChain_of_linked s as 0 h.linked)
+    (prevChain_of_linked s as 0 h.linked) h.nodup h.nz (by rw [h.keys]; exact h.knodup) h.mapIn
+    (by
+      intro b bs hbs
+      subst hbs
+      have hl := h.linked
+      simp only [List.cons_append, Linked] at hl
+      rw [hl.2.1]
+      exact fun hm => h.nz (by simp [hm]))
+    h.len
+  rw [h.keys] at hboth
+  refine ⟨hboth.1, ?_⟩
+  rw [hboth.2]
+  have hr := repr_foldl_discard (L.filter p) s L ⟨as, h⟩
+  rw [foldl_erase_filter _ _ h.knodup] at hr
+  have hf : L.filter (fun x => !(decide (x ∈ L.filter p))) = L.filter (fun k => !p k) := by
+    apply List.filter_congr
+    intro x hx
+    simp [List.mem_filter, hx]
+  rw [hf] at hr
+  exact hr
+
+/-- C17 audit #2: the observers read off the pointers agree with the list -/
+theorem reprA_observers {s : Store} {as L : List Nat} (h : ReprA s as L) :
+    ptrFirst s = L.head? ∧ ptrLast s = L.getLast? ∧ (∀ k, ptrMem k s = true ↔ k ∈ L) ∧ len s = L.length := by
+  refine ⟨?_, ?_, ?_, ?_⟩
+  · unfold ptrFirst
+    cases has : as with
+    | nil =>
+      have hl := h.linked
+      simp only [has, List.cons_append, List.nil_append, Linked] at hl
+      rw [← h.keys, has]; simp [hl.1]
+    | cons a r =>
+      have hl := h.linked
+      simp only [has, List.cons_append, Linked] at hl
+      have ha0 : a ≠ 0 := fun e => h.nz (by rw [has]; simp [e])
+      rw [← h.keys, has, hl.1]; simp [ha0]
+  · unfold ptrLast
+    have hw := prevWalk_of_linked s as 0 0 h.linked
+    rw [← h.keys, List.getLast?_map, ← List.head?_reverse]
+    cases hr : as.reverse with
+    | nil =>
+      rw [hr] at hw
+      simp only [PrevWalk] at hw
+      simp [hw]
+    | cons b bs =>
+      rw [hr] at hw
+      obtain ⟨hb, _⟩ := hw
+      have hbm : b ∈ as := by
+        have : b ∈ as.reverse := by rw [hr]; simp
+        simpa using this
+      have hb0 : b ≠ 0 := fun e => h.nz (e ▸ hbm)
+      rw [hb]; simp [hb0]
+  · intro k
+    unfold ptrMem
+    constructor
+    · intro hk
+      apply Classical.byContradiction
+      intro hn
+      rw [h.mapOut k hn] at hk
+      simp at hk
+    · intro hk
+      obtain ⟨a, _, _, hm⟩ := (reprA_map_some h k).1 hk
+      simp [hm]
+  · unfold len; rw [(reprA_toList h).1]
+
 /-- every state reachable by add / discard from the empty set is represented, and denotes the list the
     abstract operations compute -/
 theorem repr_runP_from : ∀ (ops : List POp) (s : Store) (L : List Nat), Repr s L →
@@ -557,6 +744,9 @@ theorem repr_runP_from : ∀ (ops : List POp) (s : Store) (L : List Nat), Repr s
       · obtain ⟨as1, a, as2, _, _, h'⟩ := (reprA_discard h k).2 hk
         exact ⟨_, h'⟩
       · rw [(reprA_discard h k).1 hk, List.erase_of_not_mem hk]; exact ⟨as, h⟩
+    | iterRm ks =>
+      simp only [applyP, absP]
+      exact (reprA_iterRem (fun k => decide (k ∈ ks)) h).2
 
 /-- `Repr` gives the hypotheses of the iteration theorem (with the fuel the driver uses) -/
 theorem iterRem_of_reprA (p : Nat → Bool) {s : Store} {as L : List Nat} (h : ReprA s as L) :
